@@ -20,7 +20,7 @@ ValuesOf(od) ==
   ELSE IF IsSignedInt(od.vtype) THEN {<<53>>, <<DASH, 53>>, <<120>>, E, <<48, 48, 55>>}                      \* 5 -5 x "" 007
   ELSE IF IsUnsignedInt(od.vtype) THEN {<<53>>, <<DASH, 49>>, E}
   ELSE {E, <<97>>, <<EQ, 97>>, <<97, EQ, 98>>, <<97, SPACE, 98>>, <<QUOTE>>, <<DASH>>, <<DASH, DASH>>, <<DASH, 53>>,
-        <<DASH, 120>>, <<DASH, DASH, 120>>, <<233>>, <<19990, 30028>>, <<107, 58, 118>>, <<QUOTE, 97, QUOTE>>}
+        <<DASH, 120>>, <<DASH, DASH, 120>>, <<DASH, DASH, DASH>>, <<233>>, <<19990, 30028>>, <<107, 58, 118>>, <<QUOTE, 97, QUOTE>>}
 
 \* context tokens: things that do not interact with the occurrence except through the parser
 CtxTokens(d) == {<<119>>, <<DASH, DASH>>} \cup
